@@ -15,7 +15,14 @@ VARIABLES n, k, W, s
 vars == <<n, k, W, s>>
 
 SortedLists(top, m) == { w \in [1..m -> 1..top] : \A a \in 1..m, b \in 1..m : a < b => w[a] <= w[b] }
-Requests(nn) == UNION { SortedLists(2 * nn + 1, m) : m \in 1..MaxW }
+(* long requests, as issued by lazy expanded postings (all values of a label at once): every     *)
+(* value present and absent, all present, all absent, and the same with every value twice          *)
+Twice(w) == [x \in 1..(2 * Len(w)) |-> w[(x + 1) \div 2]]
+LongLists(nn) == LET all == [x \in 1..(2 * nn + 1) |-> x]
+                     evens == [x \in 1..nn |-> 2 * x]
+                     odds == [x \in 1..(nn + 1) |-> 2 * x - 1]
+                 IN {all, evens, odds, Twice(all), Twice(evens), Twice(odds)}
+Requests(nn) == UNION { SortedLists(2 * nn + 1, m) : m \in 1..MaxW } \cup LongLists(nn)
 
 Init == /\ n \in 1..MaxN /\ k \in Ks
         /\ W \in Requests(n)
@@ -33,6 +40,8 @@ AnswersLikeFullIndex == s.pc = "done" => ~s.err /\ s.rngs = Expected(n, W)
 AnswersAcceptable == s.pc = "done" => RangesOK(s.rngs, Expected(n, W), PO(n + 1))
 NeverOverAnswers == Len(s.rngs) + Len(s.same) <= Len(W) /\ s.d <= n + 1
 Terminates == <>(s.pc = "done")
+(* LabelValues returns every value of the label, in order, for every sampling rate *)
+LabelValuesComplete == LET r == AlgoLabelValues(n, k) IN ~r.err /\ r.vals = [j \in 1..n |-> Val(j)]
 
 (* ---- leg B: every (n, k, W) is looked up in a real index-header ---- *)
 CasesFile == IF "VERIF_CASES" \in DOMAIN IOEnv THEN IOEnv.VERIF_CASES ELSE "cases.ndjson"
